@@ -345,3 +345,31 @@ contract(
         "implies(not old(self.finalised), self.finalised)",
     ],
 )
+
+# ---- C20: every level of the importance sampler draws at least one point ----
+# drawing zero points is not survivable: draw_n_samples takes np.min of the
+# new log-likelihoods and OrderedSamples.add_samples / get_inverse_indices
+# take the max of an empty index array.  With constant draws (or replace_all)
+# n_add = nlive >= 1; with variable draws n_add = n_removed, which no contract
+# bounds below by 1 (min_samples == nlive is accepted; ties at the threshold).
+contract(INS, "ImportanceNestedSampler.add_and_update_points",
+         variant_name="c20", props=["C20"], trusted=True, verify=False,
+         trusted_reason=INS_FRAME + "; REQUIRES n >= 1 (see above); ASSUMED "
+         "to re-establish INS_LIVE_OK",
+         params={"n": "Int"}, requires=["n >= 1"],
+         modifies=["self.live_points_unit", "self.training_samples",
+                   "self.proposal"],
+         ensures=INS_LIVE_OK)
+contract(
+    INS, "ImportanceNestedSampler.nested_sampling_loop", variant_name="c20",
+    props=["C20"],
+    requires=["len(self.criterion) == len(self.tolerance)",
+              "self.plotting_frequency >= 1"],
+    modifies=INS_LOOP_MOD + ["self.finalised"],
+    returns="Tuple(Real,Any)",
+    loops={0: {"inv": INS_LIVE_OK + ["not self.finalised"],
+               "modifies": INS_LOOP_MOD}},
+    replay={"module": "replay.custom", "func": "script_probe",
+            "script": "c20_zero_removal.py", "args": [50, 50]},
+    ensures=["implies(not old(self.finalised), self.finalised)"],
+)
